@@ -68,8 +68,9 @@ class Run:
     # ---- projection
     def state(self):
         it = self.interp
+        extra = len(set(it.context) - {'p', 'g', 'c', 'tick', 'x', 'box', 'lst'})     # nothing else may appear
         return {'conf': sorted(self.ids[n] for n in it.configuration if n not in self.host_only), 'final': bool(it.final),
-                'time': it.time, 'x': it.context.get('x', -1)}
+                'time': it.time, 'x': it.context.get('x', -1) + 1000 * extra}
 
     def private(self):
         it = self.interp
@@ -153,8 +154,8 @@ class Run:
         try:
             if op == 'queue':
                 kw = {}
-                if o['dl']:
-                    kw['delay'] = o['dl']
+                if o['dl'] or h.get('xd', (o['ev'] + o['par'] + len(self.returned)) % 2 == 0):
+                    kw['delay'] = o['dl']        # sometimes an explicit delay=0
                 if o['par']:
                     kw['v'] = o['par']
                 it.queue(Event(realize.ev_name(o['ev']), **kw))
